@@ -1,6 +1,7 @@
 """C07: histories of write / flush / write_block / reopen on fastavro.write.Writer, validated against AvroWriter (V)."""
 import io
 import itertools
+import os
 
 from . import container, core, gen, p_file, proj
 
@@ -202,11 +203,40 @@ def describe(c):
 WRITER_INVS = ["InvReadBack", "InvDurable", "InvFile", "InvFlushed", "InvCutSafe", "InvSyncSafe"]
 
 
+def apalache_counting(ctx):
+    """Unbounded argument for the counting abstraction of the writer (apalache/WriterCount.tla): IndInv holds initially, is preserved by
+    every action, and implies 'after a flush everything submitted is on the stream'. Three Apalache obligations."""
+    import shutil
+    import subprocess
+    if not shutil.which("apalache-mc"):
+        ctx.assumptions.append("apalache-mc not found: the unbounded counting argument was skipped")
+        return
+    out = os.path.join(core.tlc.WORK, "apalache-%s" % ctx.prop)
+    obligations = [("base", ["--init=Init", "--inv=IndInv", "--length=0"]), ("step", ["--init=IndInit", "--inv=IndInv", "--length=1"]),
+                   ("implies", ["--init=IndInit", "--inv=ReadBackCount", "--length=0"])]
+    done = 0
+    for name, args in obligations:
+        try:
+            p = subprocess.run(["apalache-mc", "check"] + args + ["--out-dir=" + out, "WriterCount.tla"], cwd=os.path.join(core.VERIF, "apalache"),
+                               stdout=subprocess.PIPE, stderr=subprocess.STDOUT, text=True, timeout=600)
+        except subprocess.TimeoutExpired:
+            ctx.machinery.append("apalache obligation %s timed out" % name)
+            continue
+        if "EXITCODE: OK" in p.stdout:
+            done += 1
+        else:
+            ctx.machinery.append("apalache obligation %s of WriterCount failed:\n%s" % (name, p.stdout[-600:]))
+    shutil.rmtree(out, ignore_errors=True)
+    ctx.extra["apalache_inductive_invariant"] = {"module": "apalache/WriterCount.tla", "obligations": len(obligations), "discharged": done}
+    ctx.checker_cmds.append("apalache-mc check WriterCount.tla (IndInv: base, step, implies ReadBackCount)")
+
+
 def run_c07(ctx, fa):
     from . import mcheck
     # M: every history up to MaxOps of the abstract writer (any blocking policy) and of fastavro's policy, with the bytes on the stream
     mcheck.model_check(ctx, "MC_Writer", {"MaxOps": 3 if ctx.quick() else 6, "Policy": "any", "Interval": 3}, WRITER_INVS[:4], "any", spec="Spec")
     mcheck.model_check(ctx, "MC_Writer", {"MaxOps": 3 if ctx.quick() else 6, "Policy": "fastavro", "Interval": 3}, WRITER_INVS[:4], "impl", spec="Spec")
+    apalache_counting(ctx)
     maxlen = 2 if ctx.quick() else 3
     cases = exhaustive(ctx, fa, maxlen)
     ctx.extra["exhaustive_histories"] = len(cases)
